@@ -807,6 +807,14 @@ pixman_image_set_alpha_map (pixman_image_t *image,
 
     return_if_fail (!alpha_map || alpha_map->type == BITS);
 
+    if (alpha_map == image)
+    {
+	/* An image cannot be its own alpha map: that would be the
+	 * shortest possible chain, and a reference to itself
+	 */
+	return;
+    }
+
     if (alpha_map && common->alpha_count > 0)
     {
 	/* If this image is being used as an alpha map itself,
